@@ -1,4 +1,5 @@
 import IofloModel.Model.Containers
+import IofloModel.Model.OsetLinks
 import IofloModel.Drv.Proto
 /-!
 driver for the container models (keys: strings without ` `, `,`, `=`; values: integers)
@@ -7,6 +8,7 @@ driver for the container models (keys: strings without ` `, `,`, `=`; values: in
   d <op> …      odict / lodict heap       → <out> | <dump of every odict/lodict>
   m <op> …      modict heap               → <out> | <dump of every modict>
   s <op> …      oset heap                 → <out> | <dump of every oset>
+  p <op> …      oset heap, cell-level model (sentinel, cells, map): new / add / discard / pop / has / len / iter / rev
 
 lists: `-` = empty, else comma separated; pairs `k=v`; `~` = argument not given / None.
 -/
@@ -20,6 +22,7 @@ structure St where
   dh : Heap K V := []
   mh : List (OD K (List V)) := []
   sh : List (List K) := []
+  ph : List (Links.LL K) := []
 
 /-! ### parsing -/
 def commaList (s : String) : List String := if s == "-" then [] else s.splitOn ","
@@ -111,6 +114,9 @@ def dOp? : List String → Option (Nat × Op K V)
   | ["reorderbad", i] => do let i ← i.toNat?; some (i, .reorderBad)
   | ["setdefault", i, k, v] => do let i ← i.toNat?; let v ← v.toInt?; if okKey k then some (i, .setdefault k v) else none
   | ["updatep", i, ps] => do let i ← i.toNat?; let ps ← pairs? ps; some (i, .update ps)
+  | ["rev", i] => do let i ← i.toNat?; some (i, .reversed)
+  | ["ior", i, ps] => do let i ← i.toNat?; let ps ← pairs? ps; some (i, .ior ps)
+  | ["or", i, ps] => do let i ← i.toNat?; let ps ← pairs? ps; some (i, .or ps)
   | _ => none
 
 def dHOp? : List String → Option (HOp K V)
@@ -170,6 +176,9 @@ def mOp? (h : List (OD K (List V))) : List String → Option (Nat × MOp K V)
       if i = j then none else do let o ← h[j]?; some (i, .updateFrom o)
   | ["create", i, ps] => do let i ← i.toNat?; let ps ← pairs? ps; some (i, .create ps)
   | ["eq", i, j] => do let i ← i.toNat?; let j ← j.toNat?; let o ← h[j]?; some (i, .eq o)
+  | ["rev", i] => do let i ← i.toNat?; some (i, .reversed)
+  | ["ior", i, ps] => do let i ← i.toNat?; let ps ← pairs? ps; some (i, .ior ps)
+  | ["or", i, ps] => do let i ← i.toNat?; let ps ← pairs? ps; some (i, .or ps)
   | _ => none
 
 def mStep (st : St) (ws : List String) : St × String :=
@@ -260,12 +269,59 @@ def sStep (st : St) (ws : List String) : St × String :=
         | .obj o => let h'' := h' ++ [o]; ({ st with sh := h'' }, "ref " ++ toString h'.length ++ " | " ++ dumpS h'')
         | out => ({ st with sh := h' }, fmtSOut out ++ " | " ++ dumpS h')
 
+/-! ### oset requests on the cell-level model -/
+def dumpP (h : List (Links.LL K)) : String :=
+  " ".intercalate (h.map (fun s => "os{" ++ sepBy (Links.iter s) ++ "}#" ++ toString (Links.len s)))
+
+def pStep (st : St) (ws : List String) : St × String :=
+  let h := st.ph
+  let upd (i : Nat) (s' : Links.LL K) (out : String) : St × String :=
+    let h' := h.set i s'
+    ({ st with ph := h' }, out ++ " | " ++ dumpP h')
+  match ws with
+  | ["new", ks] =>
+    match keys? ks with
+    | some ks => let h' := h ++ [Links.init ks]; ({ st with ph := h' }, "ref " ++ toString h.length ++ " | " ++ dumpP h')
+    | none => (st, "bad-op")
+  | ["add", i, k] =>
+    match i.toNat?.bind (fun i => (h[i]?).map (fun s => (i, s))) with
+    | some (i, s) => if okKey k then upd i (Links.add s k) "None" else (st, "bad-op")
+    | none => (st, "bad-op")
+  | ["discard", i, k] =>
+    match i.toNat?.bind (fun i => (h[i]?).map (fun s => (i, s))) with
+    | some (i, s) => if okKey k then upd i (Links.discard s k) "None" else (st, "bad-op")
+    | none => (st, "bad-op")
+  | ["pop", i, last] =>
+    match i.toNat?.bind (fun i => (h[i]?).map (fun s => (i, s))), bool? last with
+    | some (i, s), some last =>
+      let r := Links.pop s last
+      upd i r.1 (match r.2 with | .ok k => "e " ++ k | .error e => fmtErr e)
+    | _, _ => (st, "bad-op")
+  | ["has", i, k] =>
+    match i.toNat?.bind (h[·]?) with
+    | some s => if okKey k then (st, fmtBool (Links.contains s k) ++ " | " ++ dumpP h) else (st, "bad-op")
+    | none => (st, "bad-op")
+  | ["len", i] =>
+    match i.toNat?.bind (h[·]?) with
+    | some s => (st, "n " ++ toString (Links.len s) ++ " | " ++ dumpP h)
+    | none => (st, "bad-op")
+  | ["iter", i] =>
+    match i.toNat?.bind (h[·]?) with
+    | some s => (st, "k " ++ sepBy (Links.iter s) ++ " | " ++ dumpP h)
+    | none => (st, "bad-op")
+  | ["rev", i] =>
+    match i.toNat?.bind (h[·]?) with
+    | some s => (st, "k " ++ sepBy (Links.reversed s) ++ " | " ++ dumpP h)
+    | none => (st, "bad-op")
+  | _ => (st, "bad-op")
+
 def step (st : St) (line : String) : St × String :=
   match words line with
   | ["reset"] => ({}, "ok")
   | "d" :: ws => dStep st ws
   | "m" :: ws => mStep st ws
   | "s" :: ws => sStep st ws
+  | "p" :: ws => pStep st ws
   | _ => (st, "bad-op")
 
 end Ioflo.Drv.Containers
